@@ -602,6 +602,16 @@ _s("constants_api", r"""
                     K.as<int>(seconds / squared(minutes)).in(seconds / squared(minutes)), K.in<double>(kilo(seconds) / squared(minutes)));
 """)
 
+_s("root_magnitudes", r"""
+        constexpr auto r2 = sqrt(mag<2>());
+        constexpr auto c5 = cbrt(mag<5>());
+        constexpr auto rpi = sqrt(Magnitude<Pi>{});
+        constexpr auto u = seconds * r2;
+        std::printf("root_magnitudes %.17g %.17g %.17g %.17g %.9g [%s] [%s] %d\n", get_value<double>(r2), get_value<double>(c5), get_value<double>(rpi), u(1.0).in(seconds),
+                    double(get_value<float>(r2 * r2 * r2)), mag_label(r2), unit_label(u), int(is_rational(r2)));
+        std::printf("root_magnitudes_q %.17g [%s] %.17g\n", sqrt(squared(seconds)(2.25)).in(seconds), unit_label(sqrt(kilo(seconds))), sqrt(kilo(seconds)(4.0)).in(sqrt(seconds)));
+""")
+
 def names():
     return sorted(SNIPPETS)
 
